@@ -81,6 +81,13 @@ def gen_cases(tier, seed):
                         noise = r.choice([[], [], [], ["--no-progress"], ["-v"], ["-vv"], ["--fsync"], ["--backup", "numbered"], ["--reflink", "never"]])
                         yield {"family": "A", "name": name, "spec": spec, "args": ["--driver", driver, "-w", str(w)] + noise + args, "driver": driver,
                                "workers": w, "plan": p, "fs": "ext4"}
+    # family E: a persistent resource shortage (descriptor limit far below what the run needs): xcp must give up, not wait forever
+    for name in ("multi-block", "many-files"):
+        spec, args = trees[name]
+        for driver in ("parfile", "parblock"):
+            for nofile, w in ((4, 1), (5, 1), (8, 4), (12, 16), (20, 16), (40, 64)):
+                yield {"family": "A", "name": "nofile-%d:%s" % (nofile, name), "spec": spec, "args": ["--driver", driver, "-w", str(w)] + args, "driver": driver,
+                       "workers": w, "plan": {"sched": "free", "sched_seed": 1, "nofile": nofile}, "fs": "ext4"}
     # family B: baselines to expand
     variants = [0, 1] if tier == "quick" else [0, 1, 3, 4, 5]
     for v in variants:
@@ -160,7 +167,7 @@ def expand_case(case):
         return out
 
 
-HANG = {"deadlock": "deadlock", "livelock_steps": "livelock", "livelock_cpu": "livelock"}
+HANG = {"deadlock": "deadlock", "livelock_steps": "livelock", "livelock_cpu": "livelock", "livelock_repeat": "livelock"}
 
 
 def judge_termination(run, res, sig_base, what_base):
